@@ -290,6 +290,25 @@ int main(int argc, char** argv) {
       run_case({"T.o"}, {x, y});
       run_case({x}, {y});
     }
+  // a target whose own name ends in a colon (or two): GCC and Clang write the name as it is, followed by the rule's colon
+  // ("x:: d.h"); exactly one colon is the separator
+  for (auto& n : small) {
+    if ((long)(idx++ % nshards) != shard) continue;
+    if (n.find_first_of("*;<>^`|") != string::npos || n.find("\\$") != string::npos) continue;   // F32 / F16 names
+    for (const char* tail : {":", "::"}) {
+      string name = n + tail;
+      bool inner_sep = false;
+      for (size_t i = 0; i + 1 < name.size(); ++i) if (name[i] == ':' && name[i + 1] == ' ') inner_sep = true;
+      if (inner_sep || !Representable(n, false) || n.back() == '\\') continue;   // ("\\:" reads as an escaped colon)
+      for (const char* deps : {" d.h\n", " d.h \\\n e.h\n"}) {
+        string text = Encode(name, false) + ":" + deps;
+        vector<string> ins = {"d.h"};
+        if (string(deps).find("e.h") != string::npos) ins.push_back("e.h");
+        string why;
+        if (!CheckFile(text, {name}, ins, &r, &why)) fail(text, why, {name}, ins);
+      }
+    }
+  }
   // rejection side: no ':' at all; a dependency re-used as a target with dependencies
   for (auto& n : small) {
     if ((long)(idx++ % nshards) != shard) continue;
